@@ -7,7 +7,9 @@ import (
 	"context"
 	"fmt"
 	"os"
+	"os/exec"
 	"path/filepath"
+	"runtime"
 	"sort"
 	"sync"
 	"sync/atomic"
@@ -221,6 +223,164 @@ func (g *gen) randomKills() {
 		g.emit(id, "proc-random-kill", true, writers, nil, sched, nil, reads, root, line != "",
 			fmt.Sprintf("a child process (%s) storing the %d-byte and %d-byte entries alternately in a loop was SIGKILLed %v after it started (one Set takes about %v here); loopraw = the entry bytes stored with internal/file.WriteFile directly", mode, len(e.big[0].Ref), len(e.big[1].Ref), delay, span))
 		g.w.Count("random_kill_mode", mode)
+		os.RemoveAll(root)
+	}
+}
+
+// ---------- families 6 and 7: long alternating storms, judged read by read ----------
+
+// emitSummary prints a free-running case in which writer 0 (the first Set, of
+// bundle first) has returned and two writers storing the two alternated bundles
+// are in flight for ever, followed by the given reads. Every read that is not a
+// complete bundle of the two (also: a miss after the first Set returned) is a
+// violation of the oracle; all bad reads and a sample of good ones are passed.
+func (g *gen) emitSummary(id int64, family, u string, first *bundleT, pair []*bundleT, bad, good []string, total int, root, note string) {
+	writers := []wspec{{u, first}, {u, pair[0]}, {u, pair[1]}}
+	sched := []sev{{Kind: "S", Idx: 0}, {Kind: "T", Idx: 0, OK: true}, {Kind: "S", Idx: 1}, {Kind: "S", Idx: 2}}
+	var reads []readObs
+	for _, res := range append(append([]string{}, bad...), good...) {
+		k := len(reads)
+		sched = append(sched, sev{Kind: "B", Idx: k, URL: u}, sev{Kind: "E", Idx: k})
+		reads = append(reads, readObs{Reader: k, URL: u, Res: res})
+	}
+	g.emit(id, family, true, writers, nil, sched, nil, reads, root, total > 0,
+		fmt.Sprintf("%s; %d reads in all, %d of them not a complete stored bundle (all listed first), %d good ones sampled", note, total, len(bad), len(good)))
+	g.w.Count(family+"_reads", fmt.Sprint(total/1000*1000)+"+")
+	g.w.Count(family+"_bad_reads", fmt.Sprint(len(bad)))
+}
+
+type readTally struct {
+	mu    sync.Mutex
+	bad   []string
+	good  []string
+	total int
+}
+
+func (t *readTally) add(res string, okNames map[string]bool) {
+	t.mu.Lock()
+	t.total++
+	if len(res) > 4 && res[:4] == "hit:" && okNames[res[4:]] {
+		if len(t.good) < 6 && t.total%97 == 1 {
+			t.good = append(t.good, res)
+		}
+	} else if len(t.bad) < 12 {
+		t.bad = append(t.bad, res)
+	} else {
+		t.bad[11] = res
+	}
+	t.mu.Unlock()
+}
+
+func (g *gen) altStorms() {
+	e := g.e
+	n := 4
+	if g.a.Tier == "thorough" {
+		n = 24
+	}
+	for rep := 0; rep < n; rep++ {
+		id, want := g.next()
+		if !want {
+			continue
+		}
+		procs := rep%4 == 3
+		pair := e.alt
+		if rep%4 == 2 {
+			pair = []*bundleT{e.small[4], e.alt[1]} // with a delta CRL
+		}
+		u := e.urls[rep%2]
+		root := e.newRoot()
+		fc, err := crl.NewFileCache(root)
+		if err != nil {
+			panic(err)
+		}
+		verifbridge.SetWriteFileHook(nil)
+		fc.Set(context.Background(), u, pair[0].B)
+		okNames := map[string]bool{pair[0].Name: true, pair[1].Name: true}
+		tally := &readTally{}
+		deadline := time.Now().Add(1500 * time.Millisecond)
+		var stop atomic.Bool
+		var wg sync.WaitGroup
+		var kids []*exec.Cmd
+		sets := int64(0)
+		if procs {
+			for k := 0; k < 2; k++ {
+				cmd := g.childCmd("loop", root, u, pair[k], "VH_C14_BUNDLE2="+filepath.Join(e.bdir, pair[1-k].Name))
+				if err := cmd.Start(); err != nil {
+					panic(err)
+				}
+				kids = append(kids, cmd)
+			}
+		} else {
+			fw, _ := crl.NewFileCache(root)
+			wg.Add(1)
+			go func() {
+				defer wg.Done()
+				for k := 1; !stop.Load(); k++ {
+					fw.Set(context.Background(), u, pair[k%2].B)
+					atomic.AddInt64(&sets, 1)
+				}
+			}()
+		}
+		for i := 0; i < 4; i++ {
+			wg.Add(1)
+			go func() {
+				defer wg.Done()
+				for !stop.Load() {
+					tally.add(e.get(fc, u), okNames)
+				}
+			}()
+		}
+		time.Sleep(time.Until(deadline))
+		stop.Store(true)
+		wg.Wait()
+		for _, c := range kids {
+			c.Process.Kill()
+			c.Wait()
+		}
+		fam := "alt-storm"
+		note := fmt.Sprintf("one writer goroutine alternated %s (%d bytes) and %s (%d bytes) on one URL %d times for 1.5 s while 4 readers called Get continuously", pair[0].Name, len(pair[0].Ref), pair[1].Name, len(pair[1].Ref), atomic.LoadInt64(&sets))
+		if procs {
+			fam = "alt-storm-procs"
+			note = fmt.Sprintf("two writer processes alternated %s (%d bytes) and %s (%d bytes) on one URL for 1.5 s (then killed) while 4 readers called Get continuously", pair[0].Name, len(pair[0].Ref), pair[1].Name, len(pair[1].Ref))
+		}
+		g.emitSummary(id, fam, u, pair[0], pair, tally.bad, tally.good, tally.total, root, note)
+		os.RemoveAll(root)
+	}
+}
+
+// pingPong: a Get is started, a Set of the other-size bundle completes, many times.
+func (g *gen) pingPong() {
+	e := g.e
+	n, iters := 2, 4000
+	if g.a.Tier == "thorough" {
+		n, iters = 10, 20000
+	}
+	for rep := 0; rep < n; rep++ {
+		id, want := g.next()
+		if !want {
+			continue
+		}
+		r := g.rng.Fork(uint64(id))
+		pair := e.alt
+		u := e.urls[rep%2]
+		root := e.newRoot()
+		fc, _ := crl.NewFileCache(root)
+		fw, _ := crl.NewFileCache(root)
+		verifbridge.SetWriteFileHook(nil)
+		fw.Set(context.Background(), u, pair[0].B)
+		okNames := map[string]bool{pair[0].Name: true, pair[1].Name: true}
+		tally := &readTally{}
+		done := make(chan string, 1)
+		for k := 1; k <= iters; k++ {
+			go func() { done <- e.get(fc, u) }()
+			for spin := r.Intn(400); spin > 0; spin-- {
+				runtime.Gosched()
+			}
+			fw.Set(context.Background(), u, pair[k%2].B)
+			tally.add(<-done, okNames)
+		}
+		g.emitSummary(id, "reader-ping-pong", u, pair[0], pair, tally.bad, tally.good, tally.total, root,
+			fmt.Sprintf("%d times: a Get is started, then a Set of the other bundle (%d / %d bytes) completes through another instance", iters, len(pair[0].Ref), len(pair[1].Ref)))
 		os.RemoveAll(root)
 	}
 }
